@@ -77,28 +77,12 @@ Definition is_define (o : op) : bool :=
 Definition invalid_define_changes_nothing_statement : Prop :=
   forall w o c w', is_define o = true -> step w o = (w', Res (RErr c)) -> w' = w.
 
-Lemma invalid_define_refuted_proof : ~ invalid_define_changes_nothing_statement.
-Proof.
-  intros H. specialize (H world0 (OCDef 1%N (DS None)) ERROR_INVALID_ARGUMENT _ eq_refl eq_refl).
-  discriminate H.
-Qed.
-
-(* what the half-written entry does next: every later scanner creation crashes *)
-Lemma null_string_then_create_crashes_proof :
-  snd (run world0 [OCDef 1%N (DS None); OGetRules; OCreate 0%nat]) =
-    [Res (RErr ERROR_INVALID_ARGUMENT); Res ROk; Res RCrash].
-Proof. reflexivity. Qed.
-
-(* ... and the identifier can be defined a second time, after which creation fails *)
-Lemma null_string_then_duplicate_proof :
-  snd (run world0 [OCDef 1%N (DS None); OCDef 1%N (DI 5); OGetRules]) = [Res (RErr ERROR_INVALID_ARGUMENT); Res ROk; Res ROk] /\
-  map x_id (c_ext (w_comp (fst (run world0 [OCDef 1%N (DS None); OCDef 1%N (DI 5)])))) = [1%N; 1%N].
-Proof. split; reflexivity. Qed.
-
-(* a NULL string at scanner level is not rejected at all *)
-Lemma scanner_null_string_crashes_proof :
-  snd (run world0 [OCDef 1%N (DS (Some [97%N])); OGetRules; OCreate 0%nat; OSDef 0%nat 1%N (DS None)]) =
-    [Res ROk; Res ROk; Res ROk; Res RCrash].
+(* NULL strings are rejected at every level and leave no trace (compiler: ce98a74, scanner: 0dc25b3) *)
+Lemma null_string_rejected_everywhere_proof :
+  snd (run world0 [OCDef 1%N (DS None); OCDef 1%N (DS (Some [97%N])); OCDef 1%N (DS None); OGetRules; ORDef 1%N (DS None);
+                   OCreate 0%nat; OSDef 0%nat 1%N (DS None); OSDef 0%nat 9%N (DS None); OScan 0%nat]) =
+    [Res (RErr ERROR_INVALID_ARGUMENT); Res ROk; Res (RErr ERROR_INVALID_ARGUMENT); Res ROk; Res (RErr ERROR_INVALID_ARGUMENT);
+     Res ROk; Res (RErr ERROR_INVALID_ARGUMENT); Res (RErr ERROR_INVALID_ARGUMENT); Seen [(1%N, PS [97%N])]].
 Proof. reflexivity. Qed.
 
 (* saving after a rules-level string define aborts *)
@@ -129,18 +113,17 @@ Qed.
 
 Lemma scanner_define_err o x d c o' : scanner_define o x d = (o', RErr c) -> o' = o.
 Proof.
-  unfold scanner_define. destruct (lookup x o) as [v|]; [|now intros [= <-]].
-  destruct d as [z|z|q|[s|]]; destruct v; intros H; try discriminate; now injection H as <-.
+  unfold scanner_define. destruct d as [z|z|q|[s|]]; try (now intros [= <-]);
+    (destruct (lookup x o) as [v|]; [|now intros [= <-]]; destruct v; intros H; try discriminate; now injection H as <-).
 Qed.
 
-Theorem invalid_define_partial_proof : forall w o c w',
-  is_define o = true -> (forall x, o <> OCDef x (DS None)) ->
-  step w o = (w', Res (RErr c)) -> w' = w.
+Theorem invalid_define_changes_nothing_proof : invalid_define_changes_nothing_statement.
 Proof.
-  intros w o c w' D NN H. destruct o as [x d|?|x d|?|k x d|?|?|?|?]; try discriminate; cbn in H.
+  intros w o c w' D H. destruct o as [x d|?|x d|?|k x d|?|?|?|?]; try discriminate; cbn in H.
   - destruct w as [cs [rs|] sc]; cbn in *; [now injection H as <-|].
-    unfold compiler_define in H. destruct (mem x (c_objs cs)); [now injection H as <-|].
-    destruct d as [z|z|q|[s|]]; try discriminate. exfalso. now apply (NN x).
+    unfold compiler_define in H.
+    destruct d as [z|z|q|[s|]]; try (destruct (mem x (c_objs cs)); [now injection H as <-|discriminate]).
+    now injection H as <-.
   - destruct w as [cs [rs|] sc]; cbn in *; [|now injection H as <-].
     destruct (rules_define rs x d) as [r' rc] eqn:E. injection H as <- ->.
     now rewrite (rules_define_err _ _ _ _ _ E).
@@ -172,18 +155,24 @@ Qed.
 
 Theorem scanner_define_codes_proof : forall o x d,
   snd (scanner_define o x d) =
-    match lookup x o with
-    | None => RErr ERROR_INVALID_ARGUMENT
-    | Some v =>
-        match d, v with
-        | DI _, PI _ | DB _, PI _ | DF _, PF _ | DS (Some _), PS _ => ROk
-        | DS None, PS _ => RCrash
-        | _, _ => RErr ERROR_INVALID_EXTERNAL_VARIABLE_TYPE
-        end
+    match d, lookup x o with
+    | DS None, _ => RErr ERROR_INVALID_ARGUMENT
+    | _, None => RErr ERROR_INVALID_ARGUMENT
+    | DI _, Some (PI _) | DB _, Some (PI _) | DF _, Some (PF _) | DS (Some _), Some (PS _) => ROk
+    | _, Some _ => RErr ERROR_INVALID_EXTERNAL_VARIABLE_TYPE
     end.
 Proof.
-  intros o x d. unfold scanner_define. destruct (lookup x o) as [v|]; auto.
-  destruct d as [z|z|q|[s|]]; destruct v; reflexivity.
+  intros o x d. unfold scanner_define. destruct d as [z|z|q|[s|]]; auto; destruct (lookup x o) as [v|]; auto; destruct v; reflexivity.
+Qed.
+
+Theorem compiler_define_codes_proof : forall c x d,
+  snd (compiler_define c x d) =
+    match d with
+    | DS None => RErr ERROR_INVALID_ARGUMENT
+    | _ => if mem x (c_objs c) then RErr ERROR_DUPLICATED_EXTERNAL_VARIABLE else ROk
+    end.
+Proof.
+  intros c x d. unfold compiler_define. destruct d as [z|z|q|[s|]]; auto; destruct (mem x (c_objs c)); reflexivity.
 Qed.
 
 (* ------------------------------------------------------------------ externals behave like literals *)
@@ -237,9 +226,10 @@ Theorem scanner_define_sets_proof : forall o x d o',
   scanner_define o x d = (o', ROk) ->
   lookup x o' = Some (dval_payload d) /\ forall y, y <> x -> lookup y o' = lookup y o.
 Proof.
-  intros o x d o' H. unfold scanner_define in H. destruct (lookup x o) as [v|] eqn:L; [|discriminate].
-  destruct d as [z|z|q|[s|]]; destruct v; try discriminate; injection H as <-; cbn;
-    (split; [eapply lookup_update_same; eauto | intros; now apply lookup_update_other]).
+  intros o x d o' H. unfold scanner_define in H.
+  destruct d as [z|z|q|[s|]]; try discriminate;
+    (destruct (lookup x o) as [v|] eqn:L; [|discriminate]; destruct v; try discriminate; injection H as <-; cbn;
+     (split; [eapply lookup_update_same; eauto | intros; now apply lookup_update_other])).
 Qed.
 
 (* a scan reports exactly the objects of its own scanner *)
